@@ -37,10 +37,14 @@ def _is_rat(v):
     return isinstance(v, F.Rat)
 
 
-def series_lo(col):
-    """first column of a column range (`:` -> 0, `a:b` -> a) or None when `col` is not a range"""
+NT = F.sym("@nt")
+
+
+def series_span(col):
+    """(first column, columns missing at the end) of a column range - `:` -> (0, 0), `1:` -> (1, 0), `:-1` -> (0, 1), `a:nt-1` -> (a, 1) - or None
+    when `col` is not a range.  A range that ends at a fixed column (`:1`, `:0`) or has a step is not a time history the engine can place."""
     if is_all(col):
-        return 0
+        return 0, 0
     u = sem.unfn(col)
     if u is None or u[0] != "slice":
         return None
@@ -48,39 +52,46 @@ def series_lo(col):
     if symname(step) != "None":
         raise Unsupported("column range with a step")
     if symname(lo) == "None":
-        return 0
-    if lo.is_const() and lo.const_value().denominator == 1 and lo.const_value() >= 0:
-        return int(lo.const_value())
-    raise Unsupported("column range that does not start at a constant column")
-
-
-def _hi(col):
-    if is_all(col):
-        return 0
-    hi = sem.unfn(col)[1][1]
+        a = 0
+    elif lo.is_const() and lo.const_value().denominator == 1 and lo.const_value() >= 0:
+        a = int(lo.const_value())
+    else:
+        raise Unsupported("column range that does not start at a constant column")
     if symname(hi) == "None":
-        return 0
-    if hi.is_const() and hi.const_value().denominator == 1 and hi.const_value() <= 0:
-        return int(hi.const_value())
-    raise Unsupported("column range that does not end a constant number of columns before the last")
+        b = 0
+    elif hi.is_const() and hi.const_value().denominator == 1 and hi.const_value() < 0:
+        b = -int(hi.const_value())
+    elif (hi - NT).is_const() and (hi - NT).const_value().denominator == 1 and (hi - NT).const_value() <= 0:
+        b = -int((hi - NT).const_value())
+    else:
+        raise Unsupported("column range that ends at a fixed column")
+    return a, b
+
+
+def series_lo(col):
+    sp = series_span(col)
+    return None if sp is None else sp[0]
+
+
+def mkrange(a, b):
+    if a == 0 and b == 0:
+        return ALLM
+    return F.fn("slice", NONE if a == 0 else F.const(a), NONE if b == 0 else F.const(-b), NONE)
 
 
 def compose_col(s, c):
     """column (or column range) `c` of the column range `s`"""
-    lo = series_lo(s)
-    if lo is None:
+    sp = series_span(s)
+    if sp is None:
         raise Unsupported("two indices into a selected column")
-    lo2 = series_lo(c)
-    if lo2 is None:
+    sp2 = series_span(c)
+    if sp2 is None:
         if not _is_rat(c):
             raise Unsupported("column index")
         if c.is_const() and c.const_value() < 0:
             raise Unsupported("negative column of a column range")
-        return c + lo
-    a, b = lo + lo2, _hi(s) + _hi(c)
-    if a == 0 and b == 0:
-        return ALLM
-    return F.fn("slice", NONE if a == 0 else F.const(a), NONE if b == 0 else F.const(b), NONE)
+        return c + sp[0]
+    return mkrange(sp[0] + sp2[0], sp[1] + sp2[1])
 
 
 def ref_atoms(v, out=None):
@@ -194,6 +205,7 @@ class Shared:
         self.carried = []           # dict(name, hyp, final, verified, loop)
         self.loops = []
         self.active = None          # the loop being run
+        self.upper = None           # ... its loop variable stays below nt + upper (None: not known)
 
 
 class BatchEval(GenEval):
@@ -237,8 +249,27 @@ class BatchEval(GenEval):
         return super()._index(base, comps)
 
     def at_column(self, v, c):
-        mp = {a: self.mkref(root, rows, compose_col(col, c)) for a, (root, rows, col) in series_atoms(v).items()}
+        atoms = series_atoms(v)
+        self.check_lengths(atoms)
+        if series_span(c) is None and self.B.active is not None and self.B.upper is not None and _is_rat(c):
+            # column LOOPVAR + k of a history that has lost columns: the last iteration must still find its column
+            k = c - LOOPVAR
+            if k.is_const() and k.const_value().denominator == 1:
+                for root, rows, col in atoms.values():
+                    a, b = series_span(col)
+                    # the history has nt - a - b columns; the last iteration reads its column upper - 1 + k
+                    if self.B.upper - 1 + int(k.const_value()) > -a - b - 1:
+                        self._crash(f"the last iteration of the time loop reads column {self.B.upper - 1 + int(k.const_value()):+d} (from nt) of a history "
+                                    f"that has nt{-a - b:+d} columns (IndexError)")
+        mp = {a: self.mkref(root, rows, compose_col(col, c)) for a, (root, rows, col) in atoms.items()}
         return rewrite(v, mp)
+
+    def check_lengths(self, atoms):
+        """time histories combined in one expression have the same number of columns (numpy would refuse to broadcast them)"""
+        lens = {-sum(series_span(col)) for _, _, col in atoms.values()}
+        if len(lens) > 1:
+            self._crash("time histories with " + " and ".join(f"nt{k:+d}" if k else "nt" for k in sorted(lens, reverse=True))
+                        + " columns are combined in one expression (shapes cannot be broadcast)")
 
     # ---- the time loop
     def _for(self, st):
@@ -248,15 +279,38 @@ class BatchEval(GenEval):
         if not (isinstance(st.iter, ast.Call) and dotted(st.iter.func) == "range" and 1 <= len(st.iter.args) <= 2 and not st.iter.keywords
                 and isinstance(st.target, ast.Name) and not st.orelse):
             raise Unsupported(f"for loop over `{ast.unparse(st.iter)}`")
-        if self.B.active is not None:
-            raise Unsupported("nested time loops")
         lo = 0
         if len(st.iter.args) == 2:
             lov = self.ev(st.iter.args[0])
             if not _is_rat(lov) or not lov.is_const() or lov.const_value().denominator != 1:
                 raise Unsupported("time loop that does not start at a constant step")
             lo = int(lov.const_value())
-        var = st.target.id
+        self._time_loop(st, st.target.id, lo, counted=False, upper=self._rel_nt(self.ev(st.iter.args[-1])))
+
+    @staticmethod
+    def _rel_nt(v, plus=0):
+        """k when the value is nt + k (the exclusive upper bound of the loop variable), else None"""
+        if _is_rat(v) and (v - NT).is_const() and (v - NT).const_value().denominator == 1:
+            return int((v - NT).const_value()) + plus
+        return None
+
+    def _while(self, st):
+        """a counted loop over the time steps written with `while`: `i = 0; while i < nt - 1: ...; i += 1`"""
+        t = st.test
+        if not (isinstance(t, ast.Compare) and len(t.ops) == 1 and isinstance(t.ops[0], (ast.Lt, ast.LtE, ast.NotEq)) and isinstance(t.left, ast.Name)
+                and not st.orelse):
+            return super()._while(st)
+        var = t.left.id
+        lov = self.env.get(var)
+        if not _is_rat(lov) or not lov.is_const() or lov.const_value().denominator != 1:
+            raise Unsupported("a while loop over the time steps whose counter does not start at a constant")
+        upper = self._rel_nt(self.ev(t.comparators[0]), plus=1 if isinstance(t.ops[0], ast.LtE) else 0)
+        self._time_loop(st, var, int(lov.const_value()), counted=True, upper=upper)
+
+    def _time_loop(self, st, var, lo, counted, upper=None):
+        if self.B.active is not None:
+            raise Unsupported("nested time loops")
+        self.B.upper = upper
         names = []
         for t_ in _store_targets(st.body):
             d = t_.id if isinstance(t_, ast.Name) else self.canon_dotted(t_)
@@ -275,6 +329,8 @@ class BatchEval(GenEval):
         self.run(st.body)
         self.B.active = None
         self.B.loops.append(st)
+        if counted and not self._same(self.env.get(var), LOOPVAR + 1):
+            raise Unsupported(f"a while loop over the time steps that does not advance `{var}` by one per iteration")
         # columns stored in this iteration
         stored, toff, recs = {}, None, []
         for c in self.gcells[n0:]:
@@ -401,8 +457,10 @@ class BatchEval(GenEval):
             val = c["value"]
             if aug or not self._plain(val):
                 raise Unsupported(f"store of a whole time history `{c['text']}`")
+            atoms = series_atoms(val)
+            self.check_lengths(dict(atoms, target=(c["root"], c["rows"], c["col"])))
             mp = {}
-            for a, (root, rows, col) in series_atoms(val).items():
+            for a, (root, rows, col) in atoms.items():
                 arr2, rn2 = self.refhook.classify(self, root, rows)
                 if arr2 is None or rn2 is None:
                     raise Unsupported(f"time history `{ast.unparse(target)}` computed from a series that is not a partition of a time history")
